@@ -60,6 +60,9 @@ def _cells():
     lh[2] *= -1.0
     out.append(('left-handed-triclinic', lh, np.zeros(3)))
     out.append(('left-handed-swapped-rotated', (mild[[1, 0, 2]]) @ rot([3, -1, 2], 171.0).T, 2 * g))
+    # the same left-handed cell with its lengths held in metres (1e-10): every absolute tolerance in the code under test
+    # (np.isclose with atol=1e-8 ...) then dwarfs the cell
+    out.append(('metre-scale-left-handed', 1e-10 * lh @ rot([0, 1, 1], 77.0).T, 1e-10 * g))
     s = SEED % 8
     out.append(('seed-slice', chol_from_params(3.0 + 0.37 * s, 4.3 - 0.21 * s, 5.2 + 0.13 * s,
                                                70 + 3.1 * s, 95 - 2.3 * s, 105 + 1.7 * s) @ rot([s + 1, 2, -3], 20.0 + 31.0 * s).T,
